@@ -75,3 +75,52 @@ package internal
 //@   ensures [C10,C09] end-function-called-once: ncalls == 1 && argsOK
 //@   ensures [C10,C07] returns-users-error: implies(!upanic, result == uerr)
 //@   ensures [C04] panic-is-panic-error: implies(upanic, isPanicErr(result, pv))
+
+// ---------------------------------------------------------------------------
+// Directive wrappers. Vocabulary bound at an exit of the wrapper literal:
+//   hoistedAssignedOnce hoistOrdered hoistBeforeGenerated   the _L_C := expr prologue
+//   singleWriter cellTypesDistinct        shared cells vN / pN
+//   depsCoverReaders depsOnlyProviders    job graph reconstructed from the Enqueue calls
+//   everyJobEnqueuedOnce tasksListComplete schedParamsOK directiveCtxEverywhere
+//   waitCalled waitNil waitErr            outcome of sched.Wait on this path
+//   nResultStores nResultTargets resultStoreBeforeWait resultStoresFromCellOfPointeeType
+//   events(...) evarg(...) result panics
+
+//@ func role:flow-wrapper
+//@   ensures [C15] arguments-hoisted-once-in-source-order-before-generated-code: hoistedAssignedOnce && hoistOrdered && hoistBeforeGenerated
+//@   ensures [C02,C12] shared-cells-have-a-single-writer-and-distinct-types: singleWriter && cellTypesDistinct
+//@   ensures [C01,C12] every-reader-depends-on-the-writer-of-what-it-reads: implies(waitCalled, depsCoverReaders)
+//@   ensures [C11] jobs-depend-only-on-providers-of-their-inputs: implies(waitCalled, depsOnlyProviders)
+//@   ensures [C02,C05,C06] every-job-enqueued-once-and-wait-called: waitCalled && everyJobEnqueuedOnce
+//@   ensures [C09] directive-context-passed-to-enqueue-and-wait: directiveCtxEverywhere
+//@   ensures [C08,C03] scheduler-params-are-the-hoisted-arguments: schedParamsOK
+//@   ensures [C18] tasks-list-holds-every-task-once: tasksListComplete
+//@   ensures [C07,C02] success-writes-each-result-from-its-provider-cell: implies(waitNil, result == nil && nResultStores == nResultTargets && resultStoresFromCellOfPointeeType && !resultStoreBeforeWait)
+//@   ensures [C07] failure-leaves-results-untouched-and-returns-waits-error: implies(!waitNil, result == waitErr && nResultStores == 0)
+//@   ensures [C18] success-emits-success-then-done: implies(waitNil, events("FlowSuccess,FlowDone"))
+//@   ensures [C18] failure-emits-error-with-returned-error-then-done: implies(!waitNil, events("FlowError,FlowDone") && evarg("FlowError", 2) == result)
+//@   ensures [C04] no-escaping-panic: !panics
+
+//@ func role:parallel-wrapper
+//@   ensures [C15] arguments-hoisted-once-in-source-order-before-generated-code: hoistedAssignedOnce && hoistOrdered && hoistBeforeGenerated
+//@   ensures [C12] no-shared-cells-written-twice: singleWriter
+//@   ensures [C10,C05,C06] every-job-enqueued-once-and-wait-called: waitCalled && everyJobEnqueuedOnce
+//@   ensures [C09] directive-context-passed-to-enqueue-and-wait: directiveCtxEverywhere
+//@   ensures [C08,C03] scheduler-params-are-the-hoisted-arguments: schedParamsOK
+//@   ensures [C18] tasks-list-holds-every-task-once: tasksListComplete
+//@   ensures [C10,C07] success-returns-nil: implies(waitNil, result == nil)
+//@   ensures [C07,C08] failure-returns-waits-error: implies(!waitNil, result == waitErr)
+//@   ensures [C18] success-emits-success-then-done: implies(waitNil, events("ParallelSuccess,ParallelDone"))
+//@   ensures [C18] failure-emits-error-with-returned-error-then-done: implies(!waitNil, events("ParallelError,ParallelDone") && evarg("ParallelError", 2) == result)
+//@   ensures [C04] no-escaping-panic: !panics
+
+// One iteration of the deferred sweep over the tasks list.
+//@ func role:sweep-iteration
+//@   ensures [C18] skipped-emitted-iff-not-ran: nSkipped == ite(ran, 0, 1) && nOtherEmits == 0
+//@   ensures [C18] skipped-on-this-tasks-emitter-with-directive-error: implies(!ran, skippedOnThisTasksEmitter && skippedCarriesDirectiveError)
+
+// One iteration of a Slice / Map element loop.
+//@ func role:element-iteration
+//@   ensures [C10] one-job-per-element: nEnqueued == 1
+//@   ensures [C10] closure-captures-this-iterations-copies: perIterationCopies
+//@   ensures [C10,C01] end-hook-depends-on-exactly-the-element-jobs: endJobsRecorded
